@@ -1,13 +1,19 @@
-(* ErrnoProofs.v -- the error NUMBER a failing pwrite reports is irrelevant to the modelled code.
+(* ErrnoProofs.v -- the error NUMBER a failing pwrite or a failing ftruncate reports is irrelevant to the modelled code.
 
-   The OS oracle answers a failing pwrite with [WErr e], e in {EIO, ENOSPC, EAGAIN, EINTR, EBADF}.  file_write
+   The OS oracle answers a failing pwrite with [WErr e], e in {EIO, ENOSPC, EAGAIN, EINTR, EBADF, EINVAL}.  file_write
    (platform.c:66-86) does `if (written < 0) CHECK_POSIX(errno);` -- every errno leaves the loop with return value 0.
-   Two write scripts that fail the same calls with possibly different error numbers ([errno_variant]) therefore drive
+   It answers the ftruncate of a create with [CFailTrunc e], same e.  file_create (platform.c:38-63) does
+   `if (ftruncate(fid, 0) < 0) { int tmp = errno; close(fid); CHECK_POSIX(tmp); }` -- every errno closes the
+   descriptor and returns 0.
+   Two write scripts that fail the same calls with possibly different error numbers ([errno_variant]), and two create
+   scripts that fail the same calls in the same way with possibly different error numbers ([cerrno_variant]),
+   therefore drive
      - the loop over one file ([file_write1]) to the same result,
-     - file_write over the OS model to the same return value and the same OS (table, files, counters, log),
+     - file_write and file_create over the OS model to the same return value, the same number left in file->fid
+       and the same OS (table, files, counters, log),
      - every function of the raw / tiff / tiff-json / trash models, every HAL call, every history and every whole
        device life to the same statuses, states and system-call log, for every variant and every fuel.
-   The relation [os_ev o o'] says: o and o' agree on every field except the write script, where they are
+   The relation [os_ev o o'] says: o and o' agree on every field except the two scripts, where they are
    errno-variants of each other. *)
 From Coq Require Import String.
 From Coq Require Import List Arith NArith Bool Lia.
@@ -45,6 +51,32 @@ Definition erase_errno (ws : nat -> wresp) : nat -> wresp :=
 Lemma erase_errno_variant : forall ws, errno_variant ws (erase_errno ws).
 Proof. intros ws k. unfold erase_errno. destruct (ws k); simpl; auto. Qed.
 
+(* create scripts *)
+Lemma same_cshape_refl : forall a, same_cshape a a.
+Proof. intros [| | |e]; simpl; auto. Qed.
+
+Lemma same_cshape_sym : forall a b, same_cshape a b -> same_cshape b a.
+Proof. intros [| | |e] [| | |e'] H; simpl in *; auto. Qed.
+
+Lemma same_cshape_trans : forall a b c, same_cshape a b -> same_cshape b c -> same_cshape a c.
+Proof. intros [| | |x] [| | |y] [| | |z]; simpl; intros; try contradiction; auto. Qed.
+
+Lemma cerrno_variant_refl : forall cs, cerrno_variant cs cs.
+Proof. intros cs k. apply same_cshape_refl. Qed.
+
+Lemma cerrno_variant_sym : forall cs cs', cerrno_variant cs cs' -> cerrno_variant cs' cs.
+Proof. intros cs cs' H k. apply same_cshape_sym, H. Qed.
+
+Lemma cerrno_variant_trans : forall a b c, cerrno_variant a b -> cerrno_variant b c -> cerrno_variant a c.
+Proof. intros a b c H1 H2 k. eapply same_cshape_trans; eauto. Qed.
+
+(* the canonical representative: every failing ftruncate reports EIO *)
+Definition erase_cerrno (cs : nat -> cresp) : nat -> cresp :=
+  fun k => match cs k with CFailTrunc _ => CFailTrunc EIO | r => r end.
+
+Lemma erase_cerrno_variant : forall cs, cerrno_variant cs (erase_cerrno cs).
+Proof. intros cs k. unfold erase_cerrno. destruct (cs k); simpl; auto. Qed.
+
 (* ------------------------------------------------------------------ the loop over one file *)
 Lemma prim1_errno : forall ws ws', errno_variant ws ws' ->
   forall s off buf, prim1 ws s off buf = prim1 ws' s off buf.
@@ -64,10 +96,10 @@ Qed.
 
 (* ------------------------------------------------------------------ the operating-system model *)
 Lemma os_ev_refl : forall o, os_ev o o.
-Proof. intros o. unfold os_ev. repeat split; auto. apply errno_variant_refl. Qed.
+Proof. intros o. unfold os_ev. repeat split; auto. apply cerrno_variant_refl. apply errno_variant_refl. Qed.
 
-Lemma os_ev_init : forall env_fds cs ws ws', errno_variant ws ws' ->
-  os_ev (os_init env_fds cs ws) (os_init env_fds cs ws').
+Lemma os_ev_init : forall env_fds cs cs' ws ws', cerrno_variant cs cs' -> errno_variant ws ws' ->
+  os_ev (os_init env_fds cs ws) (os_init env_fds cs' ws').
 Proof. intros. unfold os_ev, os_init; cbn. repeat split; auto. Qed.
 
 (* results that carry an OS *)
@@ -105,7 +137,7 @@ Proof. intros o o' f H. ev_open H. ev_done. Qed.
 
 Lemma os_ev_fs : forall o o', os_ev o o' -> fs o' = fs o.
 Proof. intros o o' H. apply H. Qed.
-Lemma os_ev_cscr : forall o o', os_ev o o' -> cscr o' = cscr o.
+Lemma os_ev_cscr : forall o o', os_ev o o' -> cerrno_variant (cscr o) (cscr o').
 Proof. intros o o' H. apply H. Qed.
 Lemma os_ev_nopen : forall o o', os_ev o o' -> nopen o' = nopen o.
 Proof. intros o o' H. apply H. Qed.
@@ -114,7 +146,9 @@ Lemma os_open_ev : forall o o' p, os_ev o o' -> ev1 (os_open o p) (os_open o' p)
 Proof.
   intros o o' p H. ev_open H. unfold os_open, fds_of, bump_open, set_tbl, set_fs, log.
   cbn [tbl fs cscr wscr nopen nwrite nfail keep envs trace].
-  destruct p; [ev_done|]. destruct (xc xno); try solve [ev_done].
+  destruct p; [ev_done|].
+  match goal with V : cerrno_variant _ _ |- _ => pose proof (V xno) as SC end.
+  destruct (xc xno), (yc xno); cbn in SC; try contradiction; try solve [ev_done].
   all: destruct (xf (String a p)); ev_done.
 Qed.
 
@@ -139,15 +173,18 @@ Lemma file_create_ev : forall o o' p, os_ev o o' -> ev2 (file_create o p) (file_
 Proof.
   intros o o' p H. unfold file_create.
   pose proof (os_open_ev o o' p H) as [E1 E2].
-  rewrite (os_ev_cscr _ _ H), (os_ev_nopen _ _ H).
+  pose proof (os_ev_cscr _ _ H (nopen o)) as SC. rewrite (os_ev_nopen _ _ H).
   destruct (os_open o p) as [o1 r], (os_open o' p) as [o1' r']. cbn [fst snd] in *. subst r'.
   destruct r as [fd|].
-  - destruct (cscr o (nopen o)).
+  - pose proof (log_ev _ _ (ELock fd true) E1) as E3.
+    destruct (cscr o (nopen o)) as [| | |e], (cscr o' (nopen o)) as [| | |e']; cbn in SC; try contradiction.
     + unfold ev2; cbn [fst snd]. esplit; auto.
-      rewrite (os_ev_fs _ _ (log_ev _ _ (ELock fd true) E1)). apply set_fs_ev, log_ev, E1.
+      rewrite (os_ev_fs _ _ (log_ev _ _ (ETrunc fd true) E3)). apply set_fs_ev, log_ev, E3.
     + unfold ev2; cbn [fst snd]. esplit; auto.
-      rewrite (os_ev_fs _ _ (log_ev _ _ (ELock fd true) E1)). apply set_fs_ev, log_ev, E1.
+      rewrite (os_ev_fs _ _ (log_ev _ _ (ETrunc fd true) E3)). apply set_fs_ev, log_ev, E3.
     + unfold ev2; cbn [fst snd]. esplit; auto. apply bump_fail_ev, os_close_ev, log_ev, E1.
+    + (* ftruncate fails with e in one run, with e' in the other: close(fd), return 0, either way *)
+      unfold ev2; cbn [fst snd]. esplit; auto. apply bump_fail_ev, os_close_ev, log_ev, E3.
   - unfold ev2; cbn [fst snd]. esplit; auto. apply bump_fail_ev, E1.
 Qed.
 
@@ -518,18 +555,26 @@ Lemma file_write_errno_irrelevant : forall o o' fid off buf, os_ev o o' ->
   os_ev (fst (file_write o fid off buf)) (fst (file_write o' fid off buf)).
 Proof. intros. destruct (file_write_ev o o' fid off buf H). auto. Qed.
 
+(* file_create over the OS model: same return value, same number left in file->fid, same OS -- whatever error number
+   the failing ftruncate reports *)
+Lemma file_create_errno_irrelevant : forall o o' p, os_ev o o' ->
+  snd (fst (file_create o p)) = snd (fst (file_create o' p)) /\
+  snd (file_create o p) = snd (file_create o' p) /\
+  os_ev (fst (fst (file_create o p))) (fst (fst (file_create o' p))).
+Proof. intros. destruct (file_create_ev o o' p H) as (A & B & C). auto. Qed.
+
 (* whole lives, in plain terms *)
-Lemma life_errno_irrelevant : forall fuel v k h env_fds cs ws ws', errno_variant ws ws' ->
-  match life fuel v k h (os_init env_fds cs ws), life fuel v k h (os_init env_fds cs ws') with
+Lemma life_errno_irrelevant : forall fuel v k h env_fds cs cs' ws ws', cerrno_variant cs cs' -> errno_variant ws ws' ->
+  match life fuel v k h (os_init env_fds cs ws), life fuel v k h (os_init env_fds cs' ws') with
   | Ret (rs, o1), Ret (rs', o1') =>
       rs = rs' /\ trace o1 = trace o1' /\ tbl o1 = tbl o1' /\ fs o1 = fs o1' /\ nfail o1 = nfail o1'
   | Diverges, Diverges => True
   | _, _ => False
   end.
 Proof.
-  intros fuel v k h env_fds cs ws ws' V.
-  pose proof (life_ev fuel v k h _ _ (os_ev_init env_fds cs ws ws' V)) as E.
-  destruct (life fuel v k h (os_init env_fds cs ws)) as [[rs o1]|], (life fuel v k h (os_init env_fds cs ws')) as [[rs' o1']|];
+  intros fuel v k h env_fds cs cs' ws ws' VC V.
+  pose proof (life_ev fuel v k h _ _ (os_ev_init env_fds cs cs' ws ws' VC V)) as E.
+  destruct (life fuel v k h (os_init env_fds cs ws)) as [[rs o1]|], (life fuel v k h (os_init env_fds cs' ws')) as [[rs' o1']|];
     cbn in E; try contradiction; auto.
   destruct E as [E1 E2]. cbn [fst snd] in *. destruct E2 as (T & F & _ & _ & _ & _ & NF & _ & _ & TR).
   esplit; auto.
